@@ -215,7 +215,7 @@ def oracleStep (o : OState S) (σ : State S) (c : Cmd S) (out : Out S) (σ' : St
     | some x, some y => (o, outOf (specConvCmd x y sr sc) (tr2 a f))
     | _, _ => (o, none)
   | .lfwd _ l a => match lookup σ.layers l, T a with
-    | some lay, some x => (o, outOf (specLayer σ lay x) true)
+    | some lay, some x => (o, outOf (specLayer σ lay x) (tr1 a || (layerParams lay).any (·.tracked)))
     | _, _ => (o, none)
   | .fwd _ m a => match lookup σ.models m, T a with
     | some mr, some x =>
@@ -223,7 +223,10 @@ def oracleStep (o : OState S) (σ : State S) (c : Cmd S) (out : Out S) (σ' : St
         match acc, lookup σ.layers l with
         | some (some t), some lay => specLayer σ lay t
         | _, _ => none) (some (some x))
-      (o, outOf r true)
+      let ptr := mr.layers.any (fun l => match lookup σ.layers l with
+        | some lay => (layerParams lay).any (·.tracked)
+        | none => false)
+      (o, outOf r (tr1 a || ptr))
     | _, _ => (o, none)
   | .backward v seed => match H v, out with
     | some h, .ok => (o.pass σ h (seed.bind T), some .ok)
